@@ -107,7 +107,9 @@ CHECKS = {
     "C12": {
         "text": ("Deductive: ResultSet.__or__, list_dict_or, ResultSet.__ior__ (`|=` is dispatched through the real MRO exactly as CPython does) "
                  "equal the multiset union for every rule and file, total on disjoint keys; the four accumulators are folds of the verified merge "
-                 "over all files. BOUNDED stand-in (not counted as proved): the JSON/SARIF readers against a reference extraction on generated documents."),
+                 "over all files. BOUNDED stand-ins (not counted as proved): the JSON/SARIF readers against a reference extraction on generated documents (multi-colon "
+                 "components, non-S rule keys, results with locations in two files), the memoised accumulator called repeatedly in one process, and "
+                 "the real CLI given several result files at once (every file with an open finding is fixed)."),
         "note": "Trusted: json library, dict insertion order; reader loops over opaque JSON are bounded only (bound stated in evidence).",
         "design_ref": "DESIGN.md section 4 C12",
     },
@@ -125,8 +127,9 @@ CHECKS = {
     "C15": {
         "text": ("Deductive: compile_results returns exactly one result per executed codemod, in order, each built from that codemod's metadata and "
                  "keys only (lemma by induction for the length); changesets from the pipelines have a project-relative path, at least one change, "
-                 "(libcst: a non-empty diff); a failed file never also has a changeset; Change validators; write_report status."),
-        "note": "Trusted: pydantic serialisation; metadata properties of BaseCodemod; update_finding_metadata through an assumed contract.",
+                 "(libcst: a non-empty diff); a failed file never also has a changeset; Change validators; write_report status. BOUNDED stand-in (not counted "
+                 "as proved): update_finding_metadata returns the same changesets with only rule name/url filled in (the contract compile_results assumes)."),
+        "note": "Trusted: pydantic serialisation; metadata properties of BaseCodemod.",
         "design_ref": "DESIGN.md section 4 C15",
     },
     "C19": {
@@ -134,7 +137,8 @@ CHECKS = {
                  "original line i - or the original line when it carries no finding -, one change per altered line numbered i+1 carrying the findings of "
                  "THAT line), the pipelines' apply (dry-run, diff faithful to what is written, unreadable file handled), XML pipeline apply. BOUNDED stand-in "
                  "(not counted as proved): the SAX re-serialisation (XMLGenerator + lexical handlers) run through the real XMLTransformerPipeline on "
-                 "generated documents; event stream after == event stream before with exactly the requested edit, whitespace-only text aside."),
+                 "generated documents; event stream after == event stream before with exactly the requested edit, whitespace-only text aside; with "
+                 "findings, only the element that carries the finding is edited."),
         "note": "xml.sax / expat callbacks are library code driven from C: bounded only. re.sub is an uninterpreted pure function.",
         "design_ref": "DESIGN.md section 4 C19",
     },
@@ -163,7 +167,9 @@ CHECKS = {
                  "(report_change/add_change/...: the change entry's lineNumber is the node's start line) are verified against contracts; "
                  "all obligations discharged by z3 on each run. Plus a selection-typestate obligation per change-recording site of EVERY transformer "
                  "class (147 sites): on every path to the site the line filter returned True - discharged by a path-sensitive abstract interpretation "
-                 "of the real method bodies (pyvc/guardscan.py; two allow-listed sites are listed as assumptions)."),
+                 "of the real method bodies (pyvc/guardscan.py; two allow-listed sites are listed as assumptions). BOUNDED stand-in (not counted as proved): the property's own oracle "
+                 "through the real CLI on six detector-less codemods - three single-line sites per file, each excluded / included in turn: lines "
+                 "rewritten == permitted sites and the change entries name exactly those lines."),
         "note": ("Trusted: libcst PositionProvider (node_position uninterpreted, 1 <= start.line <= end.line), fnmatch.fnmatch (pure predicate), "
                  "str.split/int() as uninterpreted functions with the listed axioms; the per-codemod callback on_result_found (assumed to touch only "
                  "its file context lists). Whether each individual transformer consults the filter is the guard-obligation scan (when listed in evidence)."),
